@@ -501,6 +501,8 @@ class Sim:
             if rel is not None and real:
                 # the unit really runs: real worker path, real store (C02 end to end)
                 values = self.exec.run_unit(task)
+            elif rel is not None and ev.get('novalues'):
+                values = []
             elif rel is not None:
                 values = self.make_values(rel, ev.get('new', [True]))
                 for extra in ev.get('extra_values', []):
@@ -694,7 +696,10 @@ class Driver:
             if outcome == 'success':
                 mode = rng.random()
                 nvals = sum(len(sv['vals']) for sv in sim.ref.algs[wk.task.jobid]['svs']) if wk.task.jobid in sim.ref.algs else 1
-                if mode < 0.3:
+                if mode < 0.03:
+                    # the run stored nothing at all (the foreman logs 'did not update its state vector')
+                    ev['novalues'] = True
+                elif mode < 0.3:
                     ev['new'] = [True]
                 elif mode < 0.45:
                     ev['new'] = [False]
